@@ -165,8 +165,9 @@ pub fn judge(root: &Pos, spec: &SearchSpec, out: &SearchOut, saturated: bool) ->
     for b in out.best.iter() {
         search::check_line(root, &b.line).map_err(|e| format!("{}: {}", ctx(), e))?;
     }
-    let first_iteration_completed = !out.progress.is_empty();
-    if out.best.is_empty() && !saturated && (first_iteration_completed || !out.cancelled) {
+    // the first iteration always runs to completion (a Stop only takes effect after its report),
+    // so a root with a legal move always gets at least one report
+    if out.best.is_empty() && !saturated {
         return Err(format!("{} ended without reporting any best line", ctx()));
     }
     Ok(())
@@ -295,8 +296,8 @@ pub fn plan(ctx: &Ctx) -> Plan {
                therefore not replayable) and optionally a node-clock Stop at N in \
                {0,1,small,9999,10000,10001,20000,large}. Oracle: no panic (the repository's own debug assertions are \
                live), every move of every reported line legal in the position reached so far (attribute-tuple equality \
-               with the rules oracle), and at least one report unless the table is more than 25% full or the Stop came \
-               before the first iteration completed. Non-trivial = distinct histories that reuse the memory across equal \
+               with the rules oracle), and at least one report (also when the Stop precedes the first node) unless the table is more \
+               than 25% full. Non-trivial = distinct histories that reuse the memory across equal \
                placements with different rights/ep, or ran >= 2 workers with >= 10 baton switches, or were cancelled \
                mid-search and still reported.",
         assumptions: &[
